@@ -158,7 +158,8 @@ def _gowork(dirpath):
 def build_go(tagged=True, race=False):
     """build the driver (tag verif) or the plain binary from the current working tree of the repo"""
     key = repo_key()
-    name = ('hrdriver' if tagged else 'hrbin') + ('-race' if race else '') + '-' + key
+    cover = bool(os.environ.get('VERIF_COVER'))      # tools/coverage.sh: statement coverage of the repository's sources by the checks
+    name = ('hrdriver' if tagged else 'hrbin') + ('-race' if race else '') + ('-cover' if cover else '') + '-' + key
     out = os.path.join(CACHE, 'bin', name)
     with Lock('gobuild'):
         if os.path.exists(out):
@@ -182,6 +183,8 @@ def build_go(tagged=True, race=False):
             cmd += ['-tags', 'verif']
         if race:
             cmd += ['-race']
+        if cover:
+            cmd += ['-cover', '-coverpkg=github.com/aquilax/hranoprovod-cli/v3/...,github.com/aquilax/hranoprovod-cli/cmd/hranoprovod-cli/v3/...']
         cmd += ['-o', out, '.']
         r = subprocess.run(cmd, cwd=os.path.join(REPO, 'cmd', 'hranoprovod-cli'), env=env, capture_output=True, text=True)
         if r.returncode != 0:
